@@ -112,6 +112,41 @@ def list_body(ctx, case):
         ctx.check_close(f"list:{label}:overlap:{ref_tag}", case, f"overlap ({label})", ov, s.ovlp_exact, 1e-10, s.scale * amp)
         ctx.check_close(f"list:{label}:energy:{ref_tag}", case, f"energy ({label})", en, e_exact, 1e-5, escale)
         ctx.check_close(f"list:{label}:force-bias:{ref_tag}", case, f"force bias ({label})", fb, f_exact, 1e-9, fscale)
+    # closed shell: the same lists through the restricted-walker entry points (one matrix for both spins), which handle the reference on
+    # their own; the exact state is then slater(up, up)
+    if nelec[0] == nelec[1]:
+        up = np.asarray(s.jup)
+        phi_r = s.F.slater(up, up)
+        ov_r = np.vdot(s.psi, phi_r)
+        sc_r = float(np.sum(np.abs(s.psi) * np.abs(phi_r)))
+        for label, it, mx in variants[:2]:
+            cond_r = gens.reference_block_cond("multislater", norb, nelec, {"dets": [[list(d[0]), list(d[1])] for d, _ in it]}, up, up)
+            if cond_r > measure.COND_MAX or not (sc_r > 0 and abs(ov_r) >= 1e-3 * sc_r):
+                ctx.count("skipped:restricted-entry-ill-conditioned")
+                continue
+            amp_r = max(1.0, cond_r) ** 2
+            # (the restricted entry points see the average of the two one-body matrices - exact for them, as C02 states)
+            h1_ = np.asarray(case["ham"]["h1"], float)
+            H_r = s.F.hamiltonian(float(case["ham"]["h0"]), np.stack([(h1_[0] + h1_[1]) / 2] * 2), np.asarray(case["ham"]["chol"], float))
+            Hphi_r = H_r @ phi_r
+            e_r = np.vdot(s.psi, Hphi_r) / ov_r
+            chol = np.asarray(case["ham"]["chol"], float)
+            f_r = np.array([np.vdot(s.psi, s.F.one_body(L, L) @ phi_r) / ov_r for L in chol])
+            try:
+                trial, wd = _build(norb, nelec, it, mx)
+                H_, hd = gens.build_ham(norb, case["ham"], trial, wd)
+                ov = complex(trial._calc_overlap_restricted(s.jup, wd))
+                en = complex(trial._calc_energy_restricted(s.jup, hd, wd))
+                fb = np.asarray(trial._calc_force_bias_restricted(s.jup, hd, wd))
+            except Exception as e:
+                ctx.fail(f"list:{label}:restricted-entry:raised-{type(e).__name__}", case, f"{type(e).__name__}: {e}")
+                return
+            ctx.count("list:restricted-entry-checked")
+            escale_r = (float(np.sum(np.abs(s.psi) * np.abs(Hphi_r))) + 1e-3 * hn * sc_r) / abs(ov_r) * amp_r + 1e-1 * nchol * (sc_r / abs(ov_r)) * amp_r
+            fscale_r = (float(np.max(np.abs(f_r))) + ln) * sc_r / abs(ov_r) * amp_r
+            ctx.check_close(f"list:{label}:restricted-entry:overlap", case, f"overlap, restricted entry ({label})", ov, ov_r, 1e-10, sc_r * amp_r)
+            ctx.check_close(f"list:{label}:restricted-entry:energy", case, f"energy, restricted entry ({label})", en, e_r, 1e-5, escale_r)
+            ctx.check_close(f"list:{label}:restricted-entry:force-bias", case, f"force bias, restricted entry ({label})", fb, f_r, 1e-9, fscale_r)
 
 
 # ---- (b) determinant files -----------------------------------------------------------------------------------
